@@ -291,29 +291,12 @@ func hash64(s string) uint64 {
 	return h.Sum64()
 }
 
-// Execute runs the whole correspondence for one property and fills a Result.
+// Execute runs the whole correspondence for one property and fills a Result.  The cases are generated,
+// run, answered by the model, compared and judged in batches (bounded by count and by bytes), so the memory
+// a run needs does not grow with the tier.
 func Execute(p Prop, driverPath string, seed uint64, tier string, replay []string) *Result {
 	t0 := time.Now()
 	res := &Result{Property: p.ID(), Tier: tier, Seed: seed, Rule: p.Rule(), Histogram: map[string]int{}}
-	var lines []string
-	if replay != nil {
-		lines = replay
-	} else {
-		// corpus of minimised past failures (incl. witnesses of fixed findings) runs first
-		if dir := os.Getenv("VERIF_DIR"); dir != "" {
-			if b, err := os.ReadFile(dir + "/corpus/" + p.ID() + ".txt"); err == nil {
-				for _, l := range strings.Split(string(b), "\n") {
-					l = strings.TrimSpace(l)
-					if l != "" && !strings.HasPrefix(l, "#") {
-						lines = append(lines, l)
-					}
-				}
-				res.Count("corpus", len(lines))
-			}
-		}
-		r := NewRng(seed)
-		p.Gen(r, tier, func(l string) { lines = append(lines, l) })
-	}
 	prof := func(what string) {
 		if pf := os.Getenv("VERIF_PROFILE"); pf != "" {
 			if f, err := os.OpenFile(pf, os.O_APPEND|os.O_CREATE|os.O_WRONLY, 0o644); err == nil {
@@ -322,108 +305,155 @@ func Execute(p Prop, driverPath string, seed uint64, tier string, replay []strin
 			}
 		}
 	}
-	prof("generated")
-	// crash journal: which cases were in flight if the process running the real code dies
-	var journal *os.File
-	var jmu sync.Mutex
-	if jp := os.Getenv("VERIF_JOURNAL"); jp != "" {
-		if b, err := json.Marshal(lines); err == nil {
-			os.WriteFile(jp+".lines", b, 0o644)
-		}
-		journal, _ = os.Create(jp)
-	}
-	jlog := func(ev string, i int) {
-		if journal != nil {
-			jmu.Lock()
-			fmt.Fprintf(journal, "%s %d\n", ev, i)
-			jmu.Unlock()
-		}
-	}
-	// real code, in parallel
-	goOuts := make([]string, len(lines))
-	var wg sync.WaitGroup
-	nw := runtime.NumCPU()
-	if s, ok := p.(interface{ Serial() bool }); ok && s.Serial() {
-		nw = 1
-	}
-	idx := make(chan int, 1024)
-	for w := 0; w < nw; w++ {
-		wg.Add(1)
-		go func() {
-			defer wg.Done()
-			for i := range idx {
-				l := lines[i]
-				jlog("start", i)
-				goOuts[i] = SafeRun(func() string { return p.RunGo(l) })
-				jlog("done", i)
+	const maxBatchLines, maxBatchBytes = 100000, 64 << 20
+	batches := make(chan []string, 1)
+	corpusN := 0
+	go func() {
+		var cur []string
+		size := 0
+		flush := func() {
+			if len(cur) > 0 {
+				batches <- cur
+				cur, size = nil, 0
 			}
-		}()
-	}
-	for i := range lines {
-		idx <- i
-	}
-	close(idx)
-	wg.Wait()
-	if journal != nil {
-		journal.Close()
-	}
-	prof("real code done")
-	// model
-	modelOuts, derr := Driver(driverPath, lines)
-	prof("model done")
-	if derr != nil {
-		res.Note("driver error: " + derr.Error())
-		res.AddViolation(Violation{What: "model driver failed: " + derr.Error(), Source: "disagreement", NoWitness: true, Obligation: "pmdriver run"})
-	}
+		}
+		emit := func(l string) {
+			cur = append(cur, l)
+			size += len(l)
+			if len(cur) >= maxBatchLines || size >= maxBatchBytes {
+				flush()
+			}
+		}
+		if replay != nil {
+			for _, l := range replay {
+				emit(l)
+			}
+		} else {
+			// corpus of minimised past failures (incl. witnesses of fixed findings) runs first
+			if dir := os.Getenv("VERIF_DIR"); dir != "" {
+				if b, err := os.ReadFile(dir + "/corpus/" + p.ID() + ".txt"); err == nil {
+					for _, l := range strings.Split(string(b), "\n") {
+						l = strings.TrimSpace(l)
+						if l != "" && !strings.HasPrefix(l, "#") {
+							emit(l)
+							corpusN++
+						}
+					}
+				}
+			}
+			p.Gen(NewRng(seed), tier, emit)
+		}
+		flush()
+		close(batches)
+	}()
 	cmp, hasCmp := p.(Comparer)
 	br, hasBr := p.(Brancher)
 	seen := map[uint64]struct{}{}
-	for i, l := range lines {
-		res.Evaluations++
-		if p.NonTrivial(l) {
-			seen[hash64(l)] = struct{}{}
+	nBatches := 0
+	driverFailed := false
+	for lines := range batches {
+		nBatches++
+		// crash journal: which cases of this batch were in flight if the process running the real code dies
+		var journal *os.File
+		var jmu sync.Mutex
+		if jp := os.Getenv("VERIF_JOURNAL"); jp != "" {
+			if b, err := json.Marshal(lines); err == nil {
+				os.WriteFile(jp+".lines", b, 0o644)
+			}
+			journal, _ = os.Create(jp)
 		}
-		if hasBr {
-			res.Histogram[br.Branch(l, goOuts[i])]++
-			if strings.HasPrefix(l, "cli") {
-				res.Histogram["(through the command-line binary)"]++
+		jlog := func(ev string, i int) {
+			if journal != nil {
+				jmu.Lock()
+				fmt.Fprintf(journal, "%s %d\n", ev, i)
+				jmu.Unlock()
 			}
 		}
-		agree := goOuts[i] == modelOuts[i]
-		if hasCmp {
-			agree = cmp.Agree(l, goOuts[i], modelOuts[i])
+		// real code, in parallel
+		goOuts := make([]string, len(lines))
+		var wg sync.WaitGroup
+		nw := runtime.NumCPU()
+		if s, ok := p.(interface{ Serial() bool }); ok && s.Serial() {
+			nw = 1
 		}
-		if modelOuts[i] == "bad-op" {
-			res.Note("bad-op from driver on: " + trunc(l, 200))
-			agree = false
+		idx := make(chan int, 1024)
+		for w := 0; w < nw; w++ {
+			wg.Add(1)
+			go func() {
+				defer wg.Done()
+				for i := range idx {
+					l := lines[i]
+					jlog("start", i)
+					goOuts[i] = SafeRun(func() string { return p.RunGo(l) })
+					jlog("done", i)
+				}
+			}()
 		}
-		orc := SafeRun(func() string { return p.Oracle(l, goOuts[i]) })
-		if !agree {
-			res.NDisagree++
-			if len(res.Disagreements) < 20 {
-				res.Disagreements = append(res.Disagreements, Disagreement{Case: l, Go: goOuts[i], Model: modelOuts[i], Oracle: orc})
+		for i := range lines {
+			idx <- i
+		}
+		close(idx)
+		wg.Wait()
+		if journal != nil {
+			journal.Close()
+		}
+		// model
+		modelOuts, derr := Driver(driverPath, lines)
+		if derr != nil && !driverFailed {
+			driverFailed = true
+			res.Note("driver error: " + derr.Error())
+			res.AddViolation(Violation{What: "model driver failed: " + derr.Error(), Source: "disagreement", NoWitness: true, Obligation: "pmdriver run"})
+		}
+		for i, l := range lines {
+			res.Evaluations++
+			if p.NonTrivial(l) {
+				seen[hash64(l)] = struct{}{}
 			}
-		}
-		if orc != "" {
-			v := Violation{Case: l, Go: goOuts[i], Expected: modelOuts[i], What: orc, Source: "oracle"}
-			// an oracle may classify a violation as an instance of a recorded finding: "KNOWN:<id>:<what>"
-			if strings.HasPrefix(orc, "KNOWN:") {
-				if p := strings.SplitN(orc, ":", 3); len(p) == 3 {
-					v.Known, v.What = p[1], p[2]
+			if hasBr {
+				res.Histogram[br.Branch(l, goOuts[i])]++
+				if strings.HasPrefix(l, "cli") {
+					res.Histogram["(through the command-line binary)"]++
 				}
 			}
-			res.AddViolation(v)
+			agree := goOuts[i] == modelOuts[i]
+			if hasCmp {
+				agree = cmp.Agree(l, goOuts[i], modelOuts[i])
+			}
+			if modelOuts[i] == "bad-op" {
+				res.Note("bad-op from driver on: " + trunc(l, 200))
+				agree = false
+			}
+			orc := SafeRun(func() string { return p.Oracle(l, goOuts[i]) })
+			if !agree {
+				res.NDisagree++
+				if len(res.Disagreements) < 20 {
+					res.Disagreements = append(res.Disagreements, Disagreement{Case: l, Go: goOuts[i], Model: modelOuts[i], Oracle: orc})
+				}
+			}
+			if orc != "" {
+				v := Violation{Case: l, Go: goOuts[i], Expected: modelOuts[i], What: orc, Source: "oracle"}
+				// an oracle may classify a violation as an instance of a recorded finding: "KNOWN:<id>:<what>"
+				if strings.HasPrefix(orc, "KNOWN:") {
+					if p := strings.SplitN(orc, ":", 3); len(p) == 3 {
+						v.Known, v.What = p[1], p[2]
+					}
+				}
+				res.AddViolation(v)
+			}
 		}
+		// samples: a few from the first batches
+		if len(lines) > 0 && len(res.Samples) < 6 {
+			step := len(lines)/3 + 1
+			for i := 0; i < len(lines) && len(res.Samples) < 6; i += step {
+				res.Samples = append(res.Samples, trunc(lines[i], 300)+"  =>  "+trunc(goOuts[i], 200))
+			}
+		}
+		prof(fmt.Sprintf("batch %d done (%d cases)", nBatches, len(lines)))
 	}
-	prof("compared and judged")
+	if corpusN > 0 {
+		res.Count("corpus", corpusN)
+	}
 	res.DistinctNT = len(seen)
-	// samples: a few spread over the run
-	if len(lines) > 0 {
-		step := len(lines)/5 + 1
-		for i := 0; i < len(lines) && len(res.Samples) < 6; i += step {
-			res.Samples = append(res.Samples, trunc(lines[i], 300)+"  =>  "+trunc(goOuts[i], 200))
-		}
-	}
 	if ex, ok := p.(Extra); ok && replay == nil {
 		ex.Extra(NewRng(seed^0xABCDEF), tier, res)
 	}
